@@ -628,7 +628,7 @@ class Interp:
                 return a  # width changes are the identity over the reals (A1)
             if src == bool:
                 return vec(lambda x: self.ite(x, self.num(1), self.num(0)) if isinstance(x, SB) else self.num(int(x)), a)
-            return vec(lambda x: self.num(int(x)), a)
+            return vec(lambda x: x if isinstance(x, Q) else self.num(int(x)), a)  # a symbolic count (see below) converts exactly
         if dst == bool:
             if src == bool:
                 return a
